@@ -221,6 +221,16 @@ def _uniform_raw_degree(rng, k):
             changed += 1
         for j in keep:
             acc[v, j] = (v * 4 + j) % n
+    if changed and rng.random() < 0.5:
+        # a second level of tail: an arc-less vertex reached from the graph gets one arc to another arc-less vertex
+        dead = [w for w in {int(x) for x in acc.reshape(-1) if x >= 0} if (acc[w] < 0).all()]
+        rng.shuffle(dead)
+        for w in dead[:2]:
+            for j in range(4):
+                x = (w * 4 + j) % n
+                if (acc[x] < 0).all() and x != w:
+                    acc[w, j] = x
+                    break
     return acc if changed else None
 
 
@@ -270,6 +280,13 @@ def generate(ctx):
         if acc is None or not (acc >= 0).any():
             continue
         yield "capacity", dict(gens.graph_case(acc, k), fam=fam, npseed=rng.getrandbits(32))
+    for k in (5, 6, 7, 8):
+        if ctx.mine(k):
+            cols = rng.sample(range(4), rng.choice([1, 2, 3]))     # keep these nucleotide columns: a d-regular graph
+            yield "regular_large", dict(k=k, cols=sorted(cols))
+    for _ in range(ctx.pick(8, 60)):        # G2: one accessor object of order 4/5 edited in place between capacity calls
+        k = rng.choice([4, 4, 5])
+        yield "edit_sequence", dict(k=k, seed=rng.getrandbits(30), steps=rng.randint(2, 5), repeats=rng.choice([1, 1, 2, 3]))
     for _ in range(ctx.pick(20, 200)):
         k = rng.choice([1, 2, 3])
         n = 4 ** k
@@ -307,6 +324,9 @@ def check_capacity(ctx, case):
     info = analyse(acc)
     reg = regular_degree(acc)
     facc = frozen(acc)
+    if hash(case["arcs"]) % 7 == 0:
+        facc = np.asfortranarray(acc)          # same values, column-major memory; writable so that a missing copy shows in the digest
+        ctx.cls("accessor layout|F")
     guard = ArgGuard(accessor=facc)
     if not info["ok"]:
         ctx.cls("not judged|" + info["why"].split(" (")[0].split(" 0.")[0].split(" 1.")[0])
@@ -369,7 +389,61 @@ def check_bounds(ctx, case):
     ctx.done("bounds", case, True)
 
 
-CHECKS = {"capacity": check_capacity, "regular": check_regular, "bounds": check_bounds}
+def check_regular_large(ctx, case):
+    """d-regular graph on the alphabet `cols` embedded in the order-k de Bruijn graph (orders 5..8, 65 536 vertices at 8)."""
+    dsw = import_dsw()
+    k, cols = case["k"], case["cols"]
+    n = 4 ** k
+    idx = np.arange(n)
+    digits = np.stack([(idx // 4 ** (k - 1 - i)) % 4 for i in range(k)], axis=1)
+    member = np.isin(digits, cols).all(axis=1)          # k-mers over the kept nucleotides
+    acc = -np.ones((n, 4), dtype=int)
+    for j in cols:
+        acc[member, j] = (idx[member] * 4 + j) % n
+    d = len(cols)
+    where = "k=%d graph over the nucleotides %s (%d-regular, %d vertices)" % (k, ["ACGT"[j] for j in cols], d, int(member.sum()))
+    val = _cap(ctx, dsw, frozen(acc), 1, where)
+    if val is not None and val != float(np.log2(float(d))):
+        ctx.fail("regular-not-exact", "single-start capacity of a %d-regular graph is %r, expected exactly %r; %s" % (d, val, float(np.log2(float(d))), where))
+    if d >= 2:
+        v2 = _cap(ctx, dsw, frozen(acc), 2, where, npseed=case["k"])
+        if v2 is not None and abs(v2 - np.log2(d)) > TOL:
+            ctx.fail("capacity-off:random-start", "capacity %r of a %d-regular primitive graph, expected log2 %d; %s" % (v2, d, d, where))
+    ctx.cls("regular|order %d" % k)
+    ctx.done("regular_large", case, True)
+
+
+def check_edit_sequence(ctx, case):
+    """G2: the same accessor object (order 4-5: more than 1000 entries) is thinned in place between capacity calls."""
+    dsw = import_dsw()
+    import random as _r
+    rng = _r.Random(case["seed"])
+    k = case["k"]
+    n = 4 ** k
+    acc = G.complete(k)
+    for step in range(case["steps"]):
+        rows = rng.sample(range(8, n - 8), max(3, n // 40))          # edits in the middle rows only
+        for v in rows:
+            acc[v, rng.randrange(4)] = -1
+        info = analyse(acc)
+        np.random.seed(case["seed"] + step)
+        out = monitored(dsw.approximate_capacity, 3000 * n * case["repeats"] + 10 ** 6, acc, repeats=case["repeats"])
+        if out.kind != "ok":
+            ctx.fail("capacity-" + out.kind, "step %d: %s" % (step, out.describe()))
+            return
+        if info["ok"]:
+            lo, hi = np.log2(info["rho_lo"]), np.log2(info["rho_hi"])
+            err = max(lo - float(out.value), float(out.value) - hi, 0.0)
+            if err > TOL:
+                ctx.fail("capacity-stale-after-edit", "step %d: after the same accessor object (order %d) was thinned in place, approximate_capacity(repeats=%d) = %.9f but log2 rho in [%.9f, %.9f]" % (
+                    step, k, case["repeats"], float(out.value), lo, hi), "edit_sequence", case)
+                return
+            ctx.evaluations += 1
+    ctx.cls("capacity re-requested after in-place edits of the same accessor")
+    ctx.done("edit_sequence", case, True)
+
+
+CHECKS = {"regular_large": check_regular_large, "edit_sequence": check_edit_sequence, "capacity": check_capacity, "regular": check_regular, "bounds": check_bounds}
 
 
 def floors(agg, tier):
@@ -377,7 +451,8 @@ def floors(agg, tier):
     c = agg["classes"]
     for name, need in (("precondition graph", 300), ("non-regular graph whose first two estimates coincide", 30),
                        ("bounds|arc-less", 2), ("bounds|any graph", 100), ("precondition graph|tails", 20),
-                       ("precondition graph|generated", 20), ("precondition graph|sparse", 100),
+                       ("precondition graph|generated", 20), ("precondition graph|sparse", 100), ("accessor layout|F", 50),
+                       ("capacity re-requested after in-place edits of the same accessor", 50), ("regular|order 8", 1),
                        ("non-regular graph with a uniform raw out-degree (arcs into arc-less vertices)", 15)):
         if c.get(name, 0) < need:
             out.append("%s observed %d < %d" % (name, c.get(name, 0), need))
